@@ -305,9 +305,8 @@ func runR(c RCase, rec *h.Rec) {
 	}
 	// Bin
 	both := c.Flags&uint16(sam.Unmapped|sam.MateUnmapped) == uint16(sam.Unmapped|sam.MateUnmapped)
+	rec.ClassIf(both, "bin_both_unmapped_placed")
 	switch {
-	case both:
-		rec.Class("bin_both_unmapped_not_asserted_when_placed")
 	case c.Pos >= 1<<29:
 		rec.Class("bin_start_beyond_indexable_range_not_asserted")
 	case wantEnd <= c.Pos:
